@@ -209,7 +209,7 @@ def cgr_event(text, size, pts, src):
         emit({"ev": "cgr", "src": src, "s": size, "bytes": b, "err": 1, "npts": 0, "nexact": 0, "pts": [], "tops": []})
         return
     n = len(pts)
-    nex = min(n, 29)
+    nex = min(n, 29, 52 - int(size).bit_length())      # exact doubles while size * numerator fits 53 bits
     flat = []
     for i, (x, y) in enumerate(pts[:nex]):
         for v in (x, y):
@@ -235,7 +235,7 @@ def cgr_event(text, size, pts, src):
 
 def cgr(seed, runs, maxlen):
     rng = random.Random(seed)
-    sizes = [1, 2, 3, 8, 1000, 1 << 20]
+    sizes = [1, 2, 3, 8, 1000, 1 << 20, 16777217, 1000000007]
     for i in range(runs):
         size = sizes[i % len(sizes)]
         c = pk.CgrComputer(size)
